@@ -138,6 +138,26 @@ func TestVerifTemplate(t *testing.T) {
 		fmt.Printf("TEMPLATE-HIT nil environmental report: reader=%v err=%v\n", out != nil, err)
 		return
 	}
+	// readers stay valid: export, keep the reader, export other reports, then read the first one
+	{
+		tx := "{{.Vector}} {{.BaseScore}} {{.SeverityValue}} {{.AVValue}}"
+		want1, _ := vrDirect(tx, rb)
+		first, err := rb.ExportWithString(tx)
+		if err == nil && first != nil {
+			for i := 0; i < 4; i++ {
+				if o, e := re.ExportWithString("{{.SeverityValue}} {{.BaseScore}} {{.Vector}} {{.Vector}}"); e == nil && o != nil {
+					io.ReadAll(o)
+				}
+				rt.ExportWith(strings.NewReader("{{.Vector}} other text"))
+				re.ExportWithString("{{ .NoSuchField }}")
+			}
+			b, _ := io.ReadAll(first)
+			if string(b) != want1 {
+				fmt.Printf("TEMPLATE-HIT base report, template %q: the reader returned by the export was read after later exports and yields %q, text/template yields %q (the returned reader does not own its content)\n", tx, b, want1)
+				return
+			}
+		}
+	}
 	fmt.Println("TEMPLATE-NONE all exports agree with text/template")
 }
 `
